@@ -317,6 +317,9 @@ def _is_carbon_carbon_without_electron(exc, old_sub, new_sub):
             j += 1
         owner[j] = t
         j += 1
+    while j < len(new):
+        owner[j] = len(old) - 1     # tail: expansion of a gate that ends the subroutine
+        j += 1
     t = owner.get(line)
     if t is None or not (0 <= t < len(old)) or old[t].mnemonic not in ("cnot", "cphase"):
         return False
